@@ -184,6 +184,8 @@ BIN_ENTRIES = {
     "get_branch": lambda t, b, k: get_branch(t.db, t.root_hash, b),
     "get_witness": lambda t, b, k: get_witness_for_key_prefix(t.db, t.root_hash, b),
     "if_branch_valid_key": lambda t, b, k: if_branch_valid(get_branch(t.db, t.root_hash, k), t.root_hash, b, t.get(k)),
+    # the same helper asked to confirm an ABSENCE (value None): the key is still checked
+    "if_branch_valid_key_absence": lambda t, b, k: if_branch_valid(get_branch(t.db, t.root_hash, k), t.root_hash, b, None),
 }
 BIN_NAMES = sorted(BIN_ENTRIES)
 
